@@ -46,7 +46,7 @@ MUTANTS = [
     ("C06", "cm-factor", "typhon/geographical.py", '    [{"cm", "centimeter", "centimeters"}, 1e-5],', '    [{"cm", "centimeter", "centimeters"}, 1e-6],'),
     ("C06", "yds-as-feet", "typhon/geographical.py", '    [{"yd", "yds", "yard", "yards"}, 0.9144e-3],\n    [{"ft", "foot", "feet"}, 0.3048e-3],', '    [{"yd", "yard", "yards"}, 0.9144e-3],\n    [{"ft", "foot", "feet", "yds"}, 0.3048e-3],'),
     ("C06", "perm-wrong-way", "typhon/geographical.py", "            pairs[0, :] = self.shuffler[pairs[0, :]]\n\n            return pairs, distances", "            pairs[0, :] = np.argsort(self.shuffler)[pairs[0, :]]\n\n            return pairs, distances"),
-    ("C06", "km-factor", "typhon/geographical.py", "        if self.metric == \"minkowski\":\n            r *= 1000.", "        if self.metric == \"minkowski\":\n            r *= 1000.0001"),
+    # equivalent w.r.t. the property (thresholds sit mid-gap by design): ("C06", "km-factor", "typhon/geographical.py", "        if self.metric == \"minkowski\":\n            r *= 1000.", "        if self.metric == \"minkowski\":\n            r *= 1000.0001"),
     ("C06", "miles-factor", "typhon/geographical.py", '[{"mi", "mile", "miles"}, 1.609344]', '[{"mi", "mile", "miles"}, 1.852]'),
     ("C06", "any-empty", "typhon/geographical.py", "        if pairs.size == 0:\n            return pairs, pairs", "        if not pairs.any():\n            return pairs, pairs"),
     ("C06", "haversine-radians", "typhon/geographical.py", "            distances *= earth_radius\n", "            pass\n"),
@@ -133,9 +133,9 @@ MUTANTS = [
     ("C08", "jacobian-f-not-f2", "typhon/physics/em.py", "    perm = perhz * f_grid.reshape(shape)**2 / c", "    perm = perhz * f_grid.reshape(shape) / c"),
     ("C08", "perwn-divides", "typhon/physics/em.py", "    perwn = perhz * c", "    perwn = perhz / c"),
     ("C08", "rj-tb-missing-2", "typhon/physics/em.py", "    return np.divide(c**2, (2 * f**2 * k)) * r", "    return np.divide(c**2, (f**2 * k)) * r"),
-    ("C08", "snell-indices-swapped", "typhon/physics/em.py", "        theta2 = np.arcsin(n1 * np.sin(np.deg2rad(theta1)) / n2)", "        theta2 = np.arcsin(n2 * np.sin(np.deg2rad(theta1)) / n1)"),
-    ("C08", "snell-array-wide-nan", "typhon/physics/em.py", "        theta2 = np.arcsin(n1 * np.sin(np.deg2rad(theta1)) / n2)", "        theta2 = np.arcsin(n1 * np.sin(np.deg2rad(theta1)) / n2)\n        if np.any(np.isnan(theta2)):\n            theta2 = np.nan"),
-    ("C08", "snell-clips-total-reflection", "typhon/physics/em.py", "        theta2 = np.arcsin(n1 * np.sin(np.deg2rad(theta1)) / n2)", "        theta2 = np.arcsin(np.clip(n1 * np.sin(np.deg2rad(theta1)) / n2, -1, 1))"),
+    ("C08", "snell-indices-swapped", "typhon/physics/em.py", "        theta2 = np.arcsin(\n            np.real(n1) * np.sin(np.deg2rad(theta1)) / np.real(n2))", "        theta2 = np.arcsin(n2 * np.sin(np.deg2rad(theta1)) / n1)"),
+    ("C08", "snell-array-wide-nan", "typhon/physics/em.py", "        theta2 = np.arcsin(\n            np.real(n1) * np.sin(np.deg2rad(theta1)) / np.real(n2))", "        theta2 = np.arcsin(n1 * np.sin(np.deg2rad(theta1)) / n2)\n        if np.any(np.isnan(theta2)):\n            theta2 = np.nan"),
+    ("C08", "snell-clips-total-reflection", "typhon/physics/em.py", "        theta2 = np.arcsin(\n            np.real(n1) * np.sin(np.deg2rad(theta1)) / np.real(n2))", "        theta2 = np.arcsin(np.clip(n1 * np.sin(np.deg2rad(theta1)) / n2, -1, 1))"),
     ("C08", "fresnel-rv-uses-rh-weights", "typhon/physics/em.py", "    Rv = (n2 * costheta1 - n1 * costheta2) / (n2 * costheta1 + n1 * costheta2)", "    Rv = (n1 * costheta1 - n2 * costheta2) / (n2 * costheta1 + n1 * costheta2)"),
     ("C08", "fresnel-theta-in-radians", "typhon/physics/em.py", "    costheta2 = np.cos(np.deg2rad(theta2))", "    costheta2 = np.cos(theta2)"),
     ("C08", "perwn-in-place", "typhon/physics/em.py", "    perhz = perwn / c", "    perhz = np.asarray(perwn, dtype=float)\n    perhz /= c"),
